@@ -78,7 +78,9 @@ func shallowTerm(t *Term, depth int) string {
 		}
 		return shallowTerm(t.Args[0], depth-1) + "." + t.Name
 	case "call", "ncall":
-		if depth <= 0 {
+		if depth <= 0 || isModuleFuncName(t.Name) {
+			// a function of the module itself by name only: its parameter list is the author's (an unused parameter
+			// dropped, a context added), what it tests is judged where it is defined
 			return t.Name + "(..)"
 		}
 		// arguments: parameters, constants and fields of parameters by name, everything computed as `_` (which
@@ -455,4 +457,13 @@ func uninformative(s string) bool {
 		}
 	}
 	return true
+}
+
+func isModuleFuncName(n string) bool {
+	for _, p := range []string{"keeper.", "types.", "alliance.", "bindings.", "bankkeeper.", "migv4.", "migv5."} {
+		if strings.HasPrefix(n, p) && !strings.HasPrefix(n, "types.StakingKeeper.") && !strings.HasPrefix(n, "types.BankKeeper.") && !strings.HasPrefix(n, "types.DistributionKeeper.") && !strings.HasPrefix(n, "types.AccountKeeper.") {
+			return true
+		}
+	}
+	return false
 }
